@@ -9,6 +9,8 @@ import (
 	"bytes"
 	"fmt"
 	"math/rand"
+	"sync"
+	"sync/atomic"
 	"time"
 
 	"github.com/alephium/wormhole-fork/node/pkg/common"
@@ -342,6 +344,41 @@ func main() {
 			r.Sample(f.summary())
 		}
 		check(f)
+	}
+
+	// (d') the digest does not depend on who else is computing one at the same time: the processor, the admin service, the
+	// notifier and the explorer all call SigningMsg from their own goroutines. Eight goroutines hash their own VAAs
+	// concurrently and compare with the harness' digest (shared hashing state shows as wrong digests or as a computation that never ends).
+	{
+		var wg sync.WaitGroup
+		var bad, total int64
+		per := r.Pick(4000, 100000)
+		done := make(chan struct{})
+		for g := 0; g < 8; g++ {
+			wg.Add(1)
+			go func(g int) {
+				defer wg.Done()
+				lr := rand.New(rand.NewSource(r.Seed*131 + int64(g)))
+				for i := 0; i < per; i++ {
+					f := gen(lr, i%3 == 0)
+					want := vlib.Digest(vlib.BuildBody(f.Sec, f.Nonce, f.EC, f.TC, f.Em, f.Seq, f.CL, f.Payload))
+					got := f.vaa().SigningMsg()
+					atomic.AddInt64(&total, 1)
+					if !bytes.Equal(got.Bytes(), want) {
+						if atomic.AddInt64(&bad, 1) == 1 {
+							r.Violation("go:digest-differs-when-computed-concurrently", map[string]interface{}{"fields": f.summary(), "got": got.Hex(), "want": vlib.Hex(want), "goroutine": g})
+						}
+					}
+				}
+			}(g)
+		}
+		go func() { wg.Wait(); close(done) }()
+		select {
+		case <-done:
+		case <-time.After(5 * time.Minute):
+			r.Violation("go:concurrent-digest-computation-does-not-terminate", map[string]interface{}{"computed_so_far": atomic.LoadInt64(&total)})
+		}
+		r.Count("concurrent_digests", atomic.LoadInt64(&total))
 	}
 
 	// (e) two real processors (Run loop) with different keys / current set indices sign the harness' digest
